@@ -436,7 +436,12 @@ def run_case(case, obs):
                     obs.violate("observed_session_fields", f"period {t} session {sid}: remaining_demand {a['rem_demand']!r}, requested - delivered = {s['requested'] - dl!r}", **w)
             if a.get("rem_time") is not None and a["rem_time"] != max(min(s["departure"] - s["arrival"], s["departure"] - t), 0):
                 obs.violate("observed_session_fields", f"period {t} session {sid}: remaining_time {a['rem_time']!r} (arrival {s['arrival']}, departure {s['departure']})", **w)
-            if a.get("arr_off") is not None and a["arr_off"] != max(s["arrival"] - t, 0):
+            if str(d.get("int_type", "")).startswith("uint"):
+                # periods until arrival of a car that has arrived = max(arrival - now, 0) evaluated in the arrival's own unsigned
+                # type wraps (numpy's arithmetic on a type the signature does not name); the statement does not speak of this
+                # derived quantity, so it is recorded, not judged, for unsigned period indices
+                obs.ev("arrival_offset_not_judged_for_unsigned_period_indices")
+            elif a.get("arr_off") is not None and a["arr_off"] != max(s["arrival"] - t, 0):
                 obs.violate("observed_session_fields", f"period {t} session {sid}: arrival_offset {a['arr_off']!r} (arrival {s['arrival']})", **w)
             ap = (s["requested"] - dl) * 1000.0 / st_of[s["station"]]["voltage"] * 60.0 / per
             if not (abs(a["amp_periods"] - ap) <= 1e-9 * max(1.0, abs(ap))):
